@@ -159,4 +159,51 @@ theorem keysConsistent_iff (l : List (Nat × Option (Nat × Nat))) :
     rw [Bool.and_eq_true, List.all_eq_true]
     exact ⟨(h x hx).1, fun y hy => (beq_beq_iff _ _ _ _).mpr ((h x hx).2 y hy)⟩
 
+/-! ### the call limit and acyclic programs
+
+`MaximumTaskCall` counts the calls of a task, not the depth of a recursion: an ACYCLIC program that refers to one
+task often enough (a binary tree of calls, a long loop, a `run: once` task with many dependents) ends with the
+"called too many times" error although nothing recurses.  The acceptor mirrors the code; `callLimitMon` is the
+property's side: an acyclic program never hits the limit. -/
+
+/-- the tasks a task refers to: dependencies, `task:` entries, deferred `task:` entries -/
+def edgesOf (d : TaskDef) : List Nat :=
+  d.deps ++ d.cmds.filterMap (fun c => match c with | .call t _ => some t | .shell _ _ _ => none)
+
+def addNew (l : List Nat) : List Nat → List Nat
+  | [] => l
+  | x :: xs => if l.contains x then addNew l xs else addNew (l ++ [x]) xs
+
+/-- one round of the transitive closure: everything reachable from `r` in one more step -/
+def closeStep (E : List (List Nat)) (R : List (List Nat)) : List (List Nat) :=
+  R.map (fun r => addNew r (r.flatMap (fun v => (E[v]?).getD [])))
+
+def closure (E : List (List Nat)) : Nat → List (List Nat) → List (List Nat)
+  | 0, R => R
+  | n+1, R => closure E n (closeStep E R)
+
+/-- no task reaches itself along references (paths of length ≥ 1; `P.length` rounds suffice) -/
+def acyclic (P : Program) : Bool :=
+  let E := P.map (fun d => addNew [] (edgesOf d))
+  let R := closure E P.length E
+  (List.range P.length).all (fun t => !((R[t]?).getD []).contains t)
+
+/-- is the activation `enter kind t` creates in `c` born with the call-limit error? -/
+def limitHit (P : Program) (F : Flags) (c : Config) (t : Nat) : Bool :=
+  earlyResult P[t]? (c.callCount t + 1) F.maxCalls == some (.typed 204)
+
+/-- some activation of the run is born with the call-limit error -/
+def limitHits (P : Program) (F : Flags) : Config → List Label → Bool
+  | _, [] => false
+  | c, l :: ls =>
+    (match l.ev with | .enter _ t => limitHit P F c t | _ => false) ||
+    (match step P F c l with
+     | some c' => limitHits P F c' ls
+     | none => false)
+
+/-- **call-limit monitor**: an acyclic program does not hit the call limit (a run shorter than the limit
+cannot: fewer `enter`s than `maxCalls`) -/
+def callLimitMon (P : Program) (F : Flags) (ncalls : Nat) (tr : List Label) : Bool :=
+  !(acyclic P && decide (F.maxCalls ≤ tr.length) && limitHits P F (init ncalls) tr)
+
 end TaskModel.Sched
